@@ -67,7 +67,10 @@ def ty_to_typing(t):
         parts = [ty_to_typing(x) for x in t[1]]
         if any(p is None for p in parts):
             return None
-        return typing.Union[tuple(parts)]
+        try:
+            return typing.Union[tuple(parts)]
+        except TypeError:  # typing cannot build a union holding a Literal of an unhashable object
+            return None
     if k == "subclass":
         return type[V.CLASSES[t[1]]]
     if k == "generic":
